@@ -15,6 +15,8 @@ from vf.gen import legal, regexgen
 
 ID = "C14"
 RULE = (
+    "(a0) strings derived from the pattern of one extractor per template shape (~210 shapes: every alternative, optional "
+    "part and repeatable part once more than its minimum; ~9,000 strings), each with ASCII and multi-byte neighbours; "
     "(a) grammar documents with multi-byte characters (curly quotes, dashes, accented letters, section/paragraph signs, "
     "astral characters) inserted before/after/between/inside citations, restricted to the stated domain (no non-ASCII "
     "whitespace or digits, none of the re.I equivalents); candidate-level oracle: every reference candidate (type, "
@@ -367,9 +369,36 @@ def shrink(case, fails):
     return shrink_case(case, fails, budget_n=600)
 
 
+def _shape_items(tier):
+    """Strings derived from the pattern of one extractor per template shape (every alternative, every optional part,
+    every repeatable part once more than its minimum), each with ASCII and with multi-byte neighbours. The strings are
+    derived at run time from the patterns of the tree under test, so a syntax the patterns newly accept is exercised."""
+    from eyecite.tokenizers import EXTRACTORS
+
+    out = []
+    seen = set()
+    reps = regexgen.shape_representatives(EXTRACTORS)
+    if tier != "quick":
+        # thorough: also the first extractor of every reporter-independent shape's second and third instance
+        reps = reps + [(i, e) for i, e in enumerate(EXTRACTORS) if i % 40 == 7]
+    for _, e in reps:
+        for cand in regexgen.alternatives(e.regex, e.flags, limit=1500):
+            m = e.compiled_regex.search(cand)
+            if not m:
+                continue
+            core = m.group(1)
+            if core in seen or not core.strip():
+                continue
+            seen.add(core)
+            out.append({"text": sanitize(f"See {core}. Then")})
+            out.append({"text": sanitize(f"\u201c{core}\u201d\u2014\u00e9")})
+    return out
+
+
 def phases(tier):
     n = 4000 if tier == "quick" else 200000
     return [
+        Phase("pattern-shapes", "enum", items=lambda: _shape_items(tier), exhaustive=True, distinct=True, chunk=50),
         Phase("multibyte-docs", "gen", strategy=_mb_doc, n=n),
         Phase("cache-faults", "custom", fn=fault_phase(tier)),
     ]
